@@ -244,3 +244,35 @@ contract(ENT + '._parse_request', trusted=True, variants=_req_variants, note='di
 
 # ================================================================================================ Config.endpoint (C10 / C05: "own endpoints")
 ghost('cfg_endpoints', ['Val', 'Val'], 'Val')
+
+
+# ================================================================================================ C15: Entity.apply_binding, HTTP-Redirect
+contract('saml2_tophat.httpbase:HTTPBase.use_http_get', inline=True)
+_REDIR = 'urn:oasis:names:tc:SAML:2.0:bindings:HTTP-Redirect'
+_ab_variants = {}
+for _resp, _typ in [(False, 'SAMLRequest'), (True, 'SAMLResponse')]:
+    _DEFL = 'b64(substr(zcompress(utf8(str_of(msg_str))), 2, len(zcompress(utf8(str_of(msg_str)))) - 6))'
+    _q1 = "urlenc1('%s', %s)" % (_typ, _DEFL)
+    _rs = "str_of(ite(truthy(relay_state), vstr(concat('&', urlenc1('RelayState', utf8(str_of(relay_state))))), vstr('')))"
+    _signed = "concat(%s, %s, concat('&', urlenc1('SigAlg', utf8(str_of(kwargs['sigalg'])))))" % (_q1, _rs)
+    _KEY = "as_type(self.sec.sec_backend, \"Inst('saml2_tophat.sigver:RSACrypto')\").key"
+    _sigv = "b64(bytes_of(rsa_sign(%s, vbytes(utf8(%s)), global_object('saml2_tophat.sigver:SIGNER_ALGS')[kwargs['sigalg']].digest)))" % (_KEY, _signed)
+    _vq = ENT + '.apply_binding[redirect,%s]' % _typ
+    contract(_vq, variant_of=ENT + '.apply_binding', consts={'binding': _REDIR, 'response': _resp},
+             types={'msg_str': 'Str', 'destination': 'Str', 'relay_state': 'Opt(Str)', 'sign': 'Any', 'kwargs': 'Dict(Str, Any)'},
+             returns='Dict(Str, Any)',
+             requires=["has_key(kwargs, 'sigalg')", "forall(lambda k: implies(has_key(kwargs, k), k == 'sigalg'), 'Val')",
+                       "typed(kwargs['sigalg'], 'Opt(Str)')"],
+             hints={('keys', 'kwargs'): ['sigalg']},
+             lets={'GLUE': "ite(has_query(destination), '&', '?')"},
+             ensures=[# C15: a signed redirect carries a signature made with THIS entity's own key over exactly the query it sends
+                      ('C15-signed-with-the-entity-s-own-key',
+                       "implies(truthy(sign) and truthy(kwargs['sigalg']) and kwargs['sigalg'] in global_object('saml2_tophat.sigver:SIGNER_ALGS'), "
+                       "str_of(result['headers'][0][1]) == concat(str_of(destination), GLUE, %s, concat('&', urlenc1('Signature', %s))))"
+                       % (_signed, _sigv)),
+                      ('C15-unsigned-when-not-asked',
+                       "implies(not (truthy(sign) and truthy(kwargs['sigalg'])), str_of(result['headers'][0][1]) == "
+                       "concat(str_of(destination), GLUE, %s, %s))" % (_q1, _rs))],
+             raises={'Exception': 'True'}, modifies=[],
+             clauses_from={'C15': ['C15-signed-with-the-entity-s-own-key', 'C15-unsigned-when-not-asked']})
+    _ab_variants[(('binding', _REDIR), ('response', _resp))] = _vq
